@@ -21,6 +21,14 @@ Token / str / int / isinstance / len / bool / repr / hash / iter / getattr /
 enumerate, another assignment to an attribute of Token anywhere in the
 package, setattr/delattr/exec/eval.
 
+Before translation every def is normalised (norm_utils.py; each rewrite
+preserves behaviour): calls of small module-level helper functions (plain
+positional parameters, straight-line assignments and one return) are inlined;
+`return E[a if c else b]` with c an isinstance / `is None` test of a name is
+written as an if statement; early returns are written as else branches;
+`x = ..` at the end of every branch followed by `return x` is written as a
+return in every branch (so __add__ and __iadd__ translate to the same body).
+
 The output depends on the abstract syntax only: comments, docstrings, layout,
 annotations, the order of the defs and the names of parameters, locals and
 comprehension variables do not change it (variables are numbered: parameters
@@ -35,6 +43,9 @@ import ast
 import glob
 import os
 import sys
+
+sys.path.insert(0, os.path.dirname(os.path.abspath(__file__)))
+import norm_utils  # noqa: E402
 
 REPO = os.environ.get('TEXSOUP_REPO', '/repo')
 
@@ -209,7 +220,9 @@ def check_module(tree):
     return cl, empty[0]
 
 
-def class_methods(cl):
+def class_methods(cl, complete=True):
+    """name -> (FunctionDef, kind).  complete=False (used by gen_buffer.py to read
+    only the defs its interpreter builds in) skips the check of the set of defs."""
     meths = {}
     for st in strip_doc(cl.body):
         need(isinstance(st, ast.FunctionDef),
@@ -222,8 +235,29 @@ def class_methods(cl):
             need(not st.decorator_list, 'Token.%s has an unsupported decorator' % st.name)
             kind = 'KStaticNew' if st.name == '__new__' else 'KInstance'
         meths[st.name] = (st, kind)
-    need(sorted(meths) == sorted(METHOD_NAMES), 'the defs of class Token changed: %s' % sorted(meths))
+    need(not complete or sorted(meths) == sorted(METHOD_NAMES),
+         'the defs of class Token changed: %s' % sorted(meths))
     return meths
+
+
+def reading_of(tree, names):
+    """The translation of the defs `names` of class Token in `tree` and of the
+    right-hand side of `Token.Empty = ...`, as comparable text: what another
+    translator pins when its interpreter builds in the meaning of these defs
+    (the theorems of Props/C13token.v are about exactly these terms)."""
+    cl, empty = check_module(tree)
+    meths = class_methods(cl, complete=False)
+    need('__new__' in meths, 'Token.__new__ is missing')
+    ctx = Ctx(meths['__new__'][0])
+    helpers = norm_utils.helper_table(tree)
+    out = {}
+    for nm in names:
+        need(nm in meths, 'Token.%s is missing' % nm)
+        fn, kind = meths[nm]
+        head, prog = translate_def(fn, kind, ctx, helpers)
+        out[nm] = head + '\n' + '\n'.join(pp_block(prog, 0))
+    out['Token.Empty'] = Scope('Token.Empty', ctx).ex(empty)
+    return out
 
 
 # -------------------------------------------------------------------- bodies
@@ -530,7 +564,45 @@ def default_values(fn):
     return ['None'] * (len(a.args) - nd) + ['Some (%s)' % const_value(d, fn.name) for d in a.defaults]
 
 
-def translate_def(fn, kind, ctx):
+def total_test(e):
+    """a condition that cannot fail and has no effect: isinstance(name, Token/int/str),
+    `name is None`, `name is not None`, `not` of one"""
+    if isinstance(e, ast.UnaryOp) and isinstance(e.op, ast.Not):
+        return total_test(e.operand)
+    if isinstance(e, ast.Call) and is_name(e.func, 'isinstance') and len(e.args) == 2 and not e.keywords:
+        return isinstance(e.args[0], ast.Name) and isinstance(e.args[1], ast.Name) and e.args[1].id in CLASSES
+    if isinstance(e, ast.Compare) and len(e.ops) == 1 and isinstance(e.ops[0], (ast.Is, ast.IsNot)):
+        return isinstance(e.left, ast.Name) and isinstance(e.comparators[0], ast.Constant) \
+            and e.comparators[0].value is None
+    return False
+
+
+def normalise(fn, helpers):
+    """The def with the behaviour-preserving rewrites of norm_utils applied, so
+    that equivalent ways of writing it give the same program: annotations
+    dropped; small module-level helper functions inlined; `return E[a if c
+    else b]` written as an if statement (c an isinstance / `is None` test of a
+    name, nothing but names and attribute reads evaluated before it); early
+    `return`s written as else branches; a result variable assigned in every
+    branch and returned at the end written as a return in every branch."""
+    try:
+        fn = norm_utils.strip_annotations(fn)
+    except norm_utils.NormError as e:
+        raise TranslationError(str(e))
+    fn.body = strip_doc(fn.body)
+    need(fn.body, '%s: empty body' % fn.name)
+    shadow = set(n.id for n in ast.walk(fn) if isinstance(n, ast.Name) and not isinstance(n.ctx, ast.Load))
+    shadow |= set(x.arg for x in fn.args.args)
+    fn.body = norm_utils.inline_helpers(fn, helpers)
+    if 'isinstance' not in shadow and not (shadow & set(CLASSES)):
+        fn.body = norm_utils.hoist_ifexp(fn.body, total_test)
+    fn.body = norm_utils.else_nest(fn.body)
+    fn.body = norm_utils.sink_tail_return(fn.body)
+    return fn
+
+
+def translate_def(fn, kind, ctx, helpers=None):
+    fn = normalise(fn, helpers or {})
     a = fn.args
     need(not a.kwonlyargs and not a.kw_defaults and not getattr(a, 'posonlyargs', []) and len(a.args) >= 1,
          '%s: unsupported parameter list' % fn.name)
@@ -545,9 +617,7 @@ def translate_def(fn, kind, ctx):
     sc = Scope(fn.name, ctx, [x.arg for x in a.args],
                a.vararg.arg if a.vararg else None, a.kwarg.arg if a.kwarg else None)
     sc.fresh_ok = object_vars(fn)
-    body = strip_doc(fn.body)
-    need(body, '%s: empty body' % fn.name)
-    prog = sc.block(body)
+    prog = sc.block(fn.body)
     head = 'mkM %s [%s] %s %s %s' % (kind, '; '.join(default_values(fn)),
                                      'true' if a.vararg else 'false', 'true' if a.kwarg else 'false',
                                      'true' if gen else 'false')
@@ -590,6 +660,7 @@ def generate():
     cl, empty = check_module(tree)
     meths = class_methods(cl)
     ctx = Ctx(meths['__new__'][0])
+    helpers = norm_utils.helper_table(tree)
     out = []
     w = out.append
     w('(* GENERATED by harness/gen_token.py from class Token of TexSoup/utils.py -- do not edit.')
@@ -603,7 +674,7 @@ def generate():
     w('')
     for name, _, coq in METHODS:
         fn, kind = meths[name]
-        head, prog = translate_def(fn, kind, ctx)
+        head, prog = translate_def(fn, kind, ctx, helpers)
         w('(* def %s *)' % name)
         w('Definition %s : mdef :=' % coq)
         w('  %s' % head)
